@@ -431,7 +431,7 @@ func (r *runner) run() int {
 		}
 		cfg := &sym.Config{Harness: name, Entry: fn, StepBudget: tc.Steps, MaxPaths: tc.MaxPaths, Workers: w, SolverMs: tc.SolverMs,
 			Params: tc.Params, Deadline: time.Now().Add(time.Duration(tc.BudgetS) * time.Second), Witnesses: tc.Witnesses, Verbose: r.verbose,
-			ReverseMaps: tc.ReverseMaps, Solvers: kinds}
+			ReverseMaps: tc.ReverseMaps, ReverseMapsPerRange: r.tier == "thorough", Solvers: kinds}
 		if r.onlyPath != nil {
 			cfg.OnlyPath = r.onlyPath
 			cfg.Workers = 1
